@@ -24,7 +24,7 @@
    readnets <k> (ident name npins p..)*k            -> none | <m> (name ident cable)*m      whole cell
    emitnets <m> (name ident lower array nw (npins p..)*nw)*m -> <k> (ident name npins p..)*k
    file   <str>                                    -> err <reason> | ok <json>       whole file: EdifFile.elab_text
-   emitfile <nts> ts.. <prog> <file>               -> raises | unsupported | ok <rt 0..5> <sexp>    whole file: EdifEmit.emit_file
+   emitfile <nts> ts.. <prog> <file>               -> raises | unsupported | ok <rt 0..5> <ordered 0/1> <prepass f = Some f 0/1> <writable 0/1> <sexp>    whole file: EdifEmit.emit_file
             prog: ~ | <str> (~|<str>);  file: name ident <nlibs> lib.. (~ | name ident lib cell)
             lib: name ident <ncells> cell..;  cell: name ident <np> port.. <ni> inst.. <nc> cab..
             port: name ident dir width array;  inst: name ident (~ | lib cell) <nprops> prop..
@@ -208,7 +208,9 @@ let handle line =
     (match emit_file ts prog f with
      | EmRaises -> "raises"
      | EmUnsupported -> "unsupported"
-     | EmOk d -> "ok " ^ dec_small (rt_status ts prog f) ^ " " ^ show_sexp d)
+     | EmOk d ->
+       let fix = (match prepass f with Some g -> file_eqb g f | None -> false) in
+       "ok " ^ dec_small (rt_status ts prog f) ^ " " ^ jbool (ordered f) ^ " " ^ jbool fix ^ " " ^ jbool (writable f && params_w ts prog) ^ " " ^ show_sexp d)
   | "prepass" :: rest ->
     let (f, _) = p_file rest in
     (match prepass f with None -> "none" | Some g -> "ok " ^ jfile g)
